@@ -56,7 +56,9 @@ Fixpoint adapt (b : binds) (r : list (string * fval)) : option hrec :=
 Definition SEEK_LIMIT : Z := 2 ^ 63.      (* BytesIO.seek(pos >= 2**63) raises OverflowError *)
 
 (* common/utils.py struct_parse(struct, stream, stream_pos): seek, parse;
-   ConstructError and the OverflowError of an unseekable position -> ELFParseError *)
+   ConstructError and the OverflowError of an unseekable position -> ELFParseError.
+   [window L] hands the decoder the sizeof(L) bytes a static Struct reads (the whole rest of the
+   stream when L has arrays): same result, cost independent of the stream length *)
 Definition struct_parse_at (L : layout) (b : binds) (img : list Z) (pos : Z) : res hrec :=
   if SEEK_LIMIT <=? pos then Err EParse
   else match decode_layout L (window L (drop pos img)) with
